@@ -9,7 +9,7 @@ namespace Fact
 
 /-- pcs at which the thread holds the cache lock -/
 def inLocked : Pc → Bool
-  | .xTouch | .xLen | .xEvict | .xRel => true
+  | .xTouch | .xLen | .xEvict | .xRel | .xRelX => true
   | .lGet | .lTest | .lAlloc | .lInit | .lSdRead | .lSdWrite => true
   | .gGet | .gTest | .gAlloc | .gInit | .gCheck | .gStore | .gRelE => true
   | .sSet | .sLoop | .sPop | .sRel => true
@@ -19,7 +19,7 @@ def inLocked : Pc → Bool
 /-- which factory kind can be at a pc -/
 def kindOK (kd : Kind) : Pc → Prop
   | .lAcq | .lGet | .lTest | .lAlloc | .lInit | .lSdRead | .lSdWrite => kd = .lru
-  | .xTouch | .xLen | .xEvict | .xRel | .xRet => kd ≠ .single
+  | .xTouch | .xLen | .xEvict | .xRel | .xRet | .xRelX => kd ≠ .single
   | .gAcq | .gGet | .gTest | .gAlloc | .gInit | .gCheck | .gStore | .gRelE | .gRetE => kd = .gettz
   | .sAcq | .sSet | .sLoop | .sPop | .sRel => kd = .gettz
   | .cAcq | .cWeak | .cStrong | .cRel => kd = .gettz
@@ -40,6 +40,7 @@ def pcInv (res : Key → Res) (g : Glob) (th : Thread) : Prop :=
   | .xLen => (∃ i, th.inst = some i ∧ g.weak th.key = some i) ∧ g.strong.length ≤ g.cap + 1
   | .xEvict => (∃ i, th.inst = some i ∧ g.weak th.key = some i) ∧ g.strong.length ≤ g.cap + 1 ∧ g.strong ≠ []
   | .xRel => (∃ i, th.inst = some i ∧ g.weak th.key = some i) ∧ g.strong.length ≤ g.cap
+  | .xRelX => g.strong.length ≤ g.cap
   | .gGet => g.strong.length ≤ g.cap
   | .gTest => (∀ i, th.inst = some i → g.weak th.key = some i) ∧ (th.inst = none → g.weak th.key = none)
                 ∧ g.strong.length ≤ g.cap
@@ -84,6 +85,7 @@ structure GI (kd : Kind) (g : Glob) : Prop where
   heldLt : ∀ r ∈ g.held, r.id < g.next
   singleLt : ∀ i, g.single = some i → i < g.next
   initedLt : ∀ i ∈ g.inited, i < g.next
+  sharedInited : ∀ e ∈ g.shared, e.2 ∈ g.inited
 
 /-- what a step of thread `t` guarantees to every other thread -/
 structure Guar (kd : Kind) (t : Tid) (g g' : Glob) : Prop where
